@@ -43,10 +43,10 @@ Definition n_ev (a : bool * N) : vev :=
   {| v_exit := fst a; v_fn := snd a; v_disp := 0; v_rdepth := 0; v_time := 0 |}.
 
 (* options that the raw dump does not implement (it reads the data files without the look-ahead list) *)
-Definition raw_class (k : case) : bool :=
-  let c := k_cfg k in
+Definition raw_free (c : cfg) (l : list N) : bool :=
   (threshold c =? 0)%N && negb (caller_filter c)
-  && forallb (fun f => match q_time (trig_of c f) with None => true | Some _ => false end) (fns k).
+  && forallb (fun f => match q_time (trig_of c f) with None => true | Some _ => false end) l.
+Definition raw_class (k : case) : bool := raw_free (k_cfg k) (fns k).
 
 (* "consistently across these commands" *)
 Definition ok_agree (k : case) : bool :=
@@ -90,8 +90,12 @@ Definition ok_range (k : case) : bool :=
   negb (range_only k)
   || (let want := filter (fun r => in_window c (r_time r)) (recs k) in
       let want4 := map (fun r => (match r_type r with ENTRY => false | EXIT => true end, r_fn r, r_depth r, r_time r)) want in
+      let names := map (fun a => let '(x, f, _, _) := a in (x, f)) want4 in
       list_eqb rt_eqb want4 (o_raw k)
-      && list_eqb n_eqb (map (fun a => let '(x, f, _, _) := a in (x, f)) want4) (map nd_n (o_replay k))).
+      && list_eqb n_eqb names (map nd_n (o_replay k))
+      && list_eqb n_eqb names (map nd_n (o_script k))
+      (* dump --chrome closes what is still open at the end of the window *)
+      && list_eqb n_eqb (names ++ map (fun f => (true, f)) (open_stack names [])) (map nt_n (o_chrome k))).
 
 (* ---------------------------------------------------------------- record time vs replay time *)
 Record rcase := {
@@ -121,8 +125,8 @@ Definition agree_opt_replay (k : rcase) : bool :=
 Fixpoint calls_of (n : call) : list call := match n with Call _ _ _ ks => n :: flat_map calls_of ks end.
 Definition thresholds (c : cfg) (l : list N) : list N :=
   threshold c :: flat_map (fun f => match q_time (trig_of c f) with Some t => [t] | None => [] end) l.
-(* a time= trigger never lowers the threshold in force (else a hidden, long enough descendant keeps a
-   short ancestor at replay time only) *)
+(* (kept for reference: not needed any more - time= is only compared when nothing is hidden, and then
+   C07_record_equals_replay_time_trigger needs no monotonicity) *)
 Fixpoint mono_thr (c : cfg) (thr : N) (n : call) : bool :=
   match n with
   | Call f _ _ ks =>
@@ -135,7 +139,6 @@ Definition rr_class_of (c : cfg) (f : list call) : bool :=
           (flat_map calls_of f)
   && forallb (fun k => match q_depth (trig_of c k) with None => true | Some _ => false end
                        && negb (q_trace_on (trig_of c k)) && negb (q_trace_off (trig_of c k))) l
-  && forallb (mono_thr c (threshold c)) f
   (* -C, `trace` and time= act on calls that -F/-N/-D hide at replay time but not at record time:
      only compared when no call is hidden by -F/-N/-D *)
   && (negb (caller_filter c || existsb (fun k => q_trace (trig_of c k)) l
@@ -146,3 +149,82 @@ Definition rr_class_of (c : cfg) (f : list call) : bool :=
 Definition rr_class (k : rcase) : bool := rr_class_of (rr_cfg k) (rr_forest k).
 Definition ok_rr (k : rcase) : bool :=
   negb (rr_class k) || list_eqb nd_eqb (rr_rec_replay k) (rr_opt_replay k).
+
+(* ---------------------------------------------------------------- several tasks *)
+Record mcase := {
+  mk_cfg : cfg; mk_forests : list (list call); mk_nfun : nat;
+  mo_replay : list (nat * (bool * N * Z));        (* task index, exit?, function, display depth; merged order *)
+  mo_nomerge : list (nat * (bool * N * Z));
+  mo_script : list (nat * (bool * N * Z));
+  mo_raw : list (nat * (bool * N * Z * N));       (* file after file *)
+  mo_chrome : list (nat * (bool * N * N));
+  mo_report : list N;
+  mo_graph : list (N * N * N)
+}.
+Definition mrecs (k : mcase) : list (list rec) := map (flats 0) (mk_forests k).
+Definition mfns (k : mcase) : list N := flat_map (flat_map fns_of) (mk_forests k).
+Definition tag_eqb {A} (eq : A -> A -> bool) (a b : nat * A) : bool := Nat.eqb (fst a) (fst b) && eq (snd a) (snd b).
+Definition tmap {A} (g : vev -> A) (l : list tev) : list (nat * A) := map (fun p => (fst p, g (snd p))) l.
+
+Definition magree_replay (k : mcase) : bool :=
+  list_eqb (tag_eqb nd_eqb) (tmap ob_nd (run_rp_m (set_no_merge (mk_cfg k) false) (mrecs k))) (mo_replay k).
+Definition magree_nomerge (k : mcase) : bool :=
+  list_eqb (tag_eqb nd_eqb) (tmap ob_nd (run_rp_m (set_no_merge (mk_cfg k) true) (mrecs k))) (mo_nomerge k).
+Definition magree_script (k : mcase) : bool :=
+  list_eqb (tag_eqb nd_eqb) (tmap ob_nd (run_script_m (mk_cfg k) (mrecs k))) (mo_script k).
+Definition magree_raw (k : mcase) : bool :=
+  list_eqb (tag_eqb rt_eqb) (tmap ob_rt (run_raw_m (mk_cfg k) (mrecs k))) (mo_raw k).
+Definition magree_chrome (k : mcase) : bool :=
+  list_eqb (tag_eqb nt_eqb) (tmap ob_nt (run_chrome_m (mk_cfg k) (mrecs k))) (mo_chrome k).
+Definition magree_report (k : mcase) : bool :=
+  list_eqb N.eqb (report_of (mk_nfun k) (map snd (run_std_m (mk_cfg k) (mrecs k))) (remaining_m (mk_cfg k) (mrecs k)))
+           (mo_report k).
+Definition magree_graph (k : mcase) : bool :=
+  list_eqb tri_eqb (graph_of_m (length (mk_forests k)) (run_std_m (mk_cfg k) (mrecs k))) (mo_graph k).
+
+(* what one task shows *)
+Definition of_task {A} (t : nat) (l : list (nat * A)) : list A := map snd (filter (fun p => Nat.eqb (fst p) t) l).
+Definition tasks_of (k : mcase) : list nat := seq 0 (length (mk_forests k)).
+
+(* the commands agree task by task (and replay / script / chrome on the merged order as well) *)
+Definition mok_agree (k : mcase) : bool :=
+  let c := mk_cfg k in
+  let pf := plt_free c (mfns k) in
+  let tn {A} (g : A -> bool * N) (l : list (nat * A)) := map (fun p => (fst p, g (snd p))) l in
+  list_eqb (tag_eqb nd_eqb) (mo_script k) (mo_nomerge k)
+  && (negb pf || list_eqb (tag_eqb nd_eqb) (mo_replay k) (mo_nomerge k))
+  && (negb (pf && no_range c) || list_eqb (tag_eqb n_eqb) (tn nd_n (mo_replay k)) (tn nt_n (mo_chrome k)))
+  && (negb (no_range c) || list_eqb N.eqb (report_of (mk_nfun k) (map (fun p => n_ev (nt_n (snd p))) (mo_chrome k)) [])
+                                    (mo_report k))
+  (* the raw dump reads file after file: with trace_on/trace_off the shared flag sees another order *)
+  && (negb (raw_free c (mfns k) && no_range c && no_switch c (mfns k))
+      || forallb (fun t => list_eqb nt_eqb (map rt_nt (of_task t (mo_raw k))) (of_task t (mo_chrome k))) (tasks_of k)).
+
+(* every task shows the documented selection of ITS forest *)
+Definition mspec_class (k : mcase) : bool := no_switch (mk_cfg k) (mfns k) && no_range (mk_cfg k).
+Definition mok_spec (k : mcase) : bool :=
+  let c := mk_cfg k in
+  negb (mspec_class k)
+  || forallb (fun t =>
+       let sel := select c (nth t (mk_forests k) []) in
+       list_eqb nt_eqb (map ob_nt sel) (of_task t (mo_chrome k))
+       && (negb (plt_free c (mfns k)) || list_eqb nd_eqb (map ob_nd sel) (of_task t (mo_replay k))))
+     (tasks_of k).
+
+(* ---------------------------------------------------------------- end to end: a real traced program *)
+Record ecase := {
+  e_cfg : cfg; e_forest : list call;               (* -F / -N / -D only; the program's call forest, dummy times *)
+  e_rec : list (bool * N * Z);                     (* uftrace record OPTS prog; uftrace replay *)
+  e_opt : list (bool * N * Z)                      (* uftrace record prog; uftrace replay OPTS *)
+}.
+Definition ok_e2e (k : ecase) : bool :=
+  let want := map ob_nd (select (e_cfg k) (e_forest k)) in
+  list_eqb nd_eqb want (e_opt k) && list_eqb nd_eqb want (e_rec k).
+
+(* ---------------------------------------------------------------- trace_on / trace_off against the documented switch *)
+Definition fheightZ (f : list call) : Z := Z.of_nat (fold_right Nat.max 0%nat (map height f)).
+Definition ok_switch (k : case) : bool :=
+  let c := k_cfg k in
+  negb (no_range c && sw_class c (fns k) (fheightZ (k_forest k)))
+  || (list_eqb n_eqb (select_sw c (k_forest k)) (map nt_n (o_chrome k))
+      && (negb (plt_free c (fns k)) || list_eqb n_eqb (select_sw c (k_forest k)) (map nd_n (o_replay k)))).
